@@ -82,20 +82,24 @@ func applyEnv(e Env) {
 		simrt.SetMapOrder(e.MapMode, e.MapSeed, e.MapSites)
 	}
 	simrt.SetAmbient(e.Ambient)
-	if e.Pool == simrt.PoolReal {
-		simrt.PoolSimEnd()
-	} else {
-		if e.DropAll {
-			simrt.PoolDropAll()
-		}
-		simrt.PoolSimSet(simrt.PoolConfig{Policy: e.Pool})
+	if e.DropAll {
+		simrt.PoolDropAll()
 	}
+	pol := e.Pool
+	if pol == simrt.PoolReal {
+		pol = simrt.PoolFreshOnly
+	}
+	simrt.PoolSimSet(simrt.PoolConfig{Policy: pol})
 }
 
+// canonicalEnv: canonical map order, ambient seed 0, and a pool that never reuses anything.
+// The real sync.Pool is never used by the harness: which object it returns depends on the P
+// the goroutine happens to run on and on GC cycles, neither of which the simulator controls -
+// a violation that depends on it would not replay.
 func canonicalEnv() {
 	simrt.SetMapOrder(0, 0, nil)
 	simrt.SetAmbient(0)
-	simrt.PoolSimEnd()
+	simrt.PoolSimBegin(simrt.PoolConfig{Policy: simrt.PoolFreshOnly}, 0)
 }
 
 // firstDiff describes where two texts start to differ.
